@@ -173,6 +173,18 @@ package jd
 //@   ensures_bounded ret0 == ""
 //@   carries C14
 
+//@ contract verifV1CLITranslate
+//@   bounded
+//@   needs_cli
+//@   cap 300 4000
+//@   universe a verifRandA(TIER)
+//@   universe b verifRandB(TIER)
+//@   zip a b
+//@   universe mode []int{0, 1, 2}
+//@   requires validNode(a) && validNode(b)
+//@   ensures_bounded ret0 == ""
+//@   carries C14
+
 //@ contract verifV1RandMerge
 //@   bounded
 //@   universe a verifRandANF(TIER)
@@ -201,8 +213,9 @@ package jd
 //@   noretain p
 //@   requires validDiff(d) && validNodes(p) && validNode(n)
 //@   ensures validDiff(ret0)
-//@   loop "range n" invariant validDiff(d)
-//@   carries C18
+//@   loop "range n" invariant forallInt(0, len(keys), func(i int) bool { return mapHas(n, keys[i]) })
+//@   loop "range keys" invariant validDiff(d)
+//@   carries C18 C14
 
 //@ contract ReadJsonString
 //@   ensures ret1 == nil ==> validNode(ret0)
